@@ -27,6 +27,38 @@ def sniCapable (p : Proto) : Bool := p == .https || p == .tls || p == .quic
 /-- id is the lower-cased form of a valid label `l`. -/
 def idOf (l id : Bytes) : Bool := validLabel l && id == lower l
 
+/-- A non-empty id justified by the server name: `cli = l.<host>`, id = lower l. -/
+def sniIdOK (host : Bytes) (cs : Except Err Bytes) (id : Bytes) : Bool :=
+  host ≠ [] &&
+    (match cs with
+     | .ok cli => (match stripDotSuffix cli host with
+                   | some l => idOf l id | none => false)
+     | .error _ => false)
+
+/-- "Nobody" is acceptable as far as the server name is concerned: no candidate
+label is present and strict checking does not demand a failure. -/
+def sniNobodyOK (host : Bytes) (strict : Bool) (cs : Except Err Bytes) : Bool :=
+  if host ≠ [] then
+    match cs with
+    | .ok cli =>
+      if cli = host then true
+      else match stripDotSuffix cli host with
+        | some l => if l ≠ [] ∧ ¬ l.contains dot then false else !strict
+        | none => !strict
+    | .error _ => false
+  else true
+
+/-- A failure is justified by the server name. -/
+def sniErrOK (host : Bytes) (strict : Bool) (cs : Except Err Bytes) : Bool :=
+  host ≠ [] &&
+    (match cs with
+     | .error _ => true
+     | .ok cli =>
+       cli ≠ host &&
+       (match stripDotSuffix cli host with
+        | some l => if l ≠ [] ∧ ¬ l.contains dot then !validLabel l else strict
+        | none => strict))
+
 def specOK (c : Ctx) (out : Except Err Bytes) : Bool :=
   -- Plain and DNSCrypt never carry a ClientID and never fail here.
   (if !sniCapable c.proto then (match out with | .ok id => id == [] | .error _ => false) else true) &&
@@ -39,14 +71,10 @@ def specOK (c : Ctx) (out : Except Err Bytes) : Bool :=
            | some p => (match pathLabel p with | some l => idOf l id | none => false)
            | none => false))
        ||
-       (sniCapable c.proto && c.hostSrvName ≠ [] &&
-          (match clientServerName c with
-           | .ok cli => (match stripDotSuffix cli c.hostSrvName with
-                         | some l => idOf l id | none => false)
-           | .error _ => false))
+       (sniCapable c.proto && sniIdOK c.hostSrvName (clientServerName c) id)
      else
-       -- "nobody" only when there is no candidate label that is invalid, and
-       -- strict checking did not demand a failure
+       -- "nobody" only when there is no candidate label at all, and strict
+       -- checking did not demand a failure
        (match c.proto, c.path with
         | .https, some p =>
           (match pathLabel p with
@@ -54,15 +82,7 @@ def specOK (c : Ctx) (out : Except Err Bytes) : Bool :=
            | none => true)
         | .https, none => false
         | _, _ => true) &&
-       (if sniCapable c.proto && c.hostSrvName ≠ [] then
-          match clientServerName c with
-          | .ok cli =>
-            if cli = c.hostSrvName then true
-            else match stripDotSuffix cli c.hostSrvName with
-              | some l => if l ≠ [] ∧ ¬ l.contains dot then false else !c.strict
-              | none => !c.strict
-          | .error _ => false
-        else true)
+       (if sniCapable c.proto then sniNobodyOK c.hostSrvName c.strict (clientServerName c) else true)
    | .error _ =>
      -- a failure needs a reason the property names
      (c.proto == .https &&
@@ -73,13 +93,6 @@ def specOK (c : Ctx) (out : Except Err Bytes) : Bool :=
             | some l => !validLabel l      -- invalid label or extra segments
             | none => pathClean p ≠ slash :: dnsQuery ∧ pathClean p ≠ dnsQuery)))
      ||
-     (c.hostSrvName ≠ [] &&
-        (match clientServerName c with
-         | .error _ => true
-         | .ok cli =>
-           cli ≠ c.hostSrvName &&
-           (match stripDotSuffix cli c.hostSrvName with
-            | some l => if l ≠ [] ∧ ¬ l.contains dot then !validLabel l else c.strict
-            | none => c.strict))))
+     sniErrOK c.hostSrvName c.strict (clientServerName c))
 
 end AGH.C16
